@@ -299,13 +299,24 @@ func (b Builder) abiExtendedFields(t types.Type, name string) (fields []llvm.Val
 		hash := b.Pkg.rtFunc("typehash")
 		env := b.abiType(t.Key())
 		hasher := b.aggregateValue(prog.Type(hashFunc, InGo), hash.impl, env.impl)
+		// Keys/elems larger than abi.MapMaxKeyBytes/MapMaxElemBytes are stored
+		// indirectly: the bucket slot holds a pointer, so the slot size recorded
+		// in the descriptor must be the pointer size (see MapBucketType/MapTypeFlags).
+		keySize := prog.abi.Size(t.Key())
+		if keySize > abi.MAXKEYSIZE {
+			keySize = prog.abi.PtrSize
+		}
+		elemSize := prog.abi.Size(t.Elem())
+		if elemSize > abi.MAXELEMSIZE {
+			elemSize = prog.abi.PtrSize
+		}
 		fields = []llvm.Value{
 			b.abiType(abi.PublicType(t.Key())).impl,
 			b.abiType(abi.PublicType(t.Elem())).impl,
 			b.abiType(bucket).impl,
 			hasher.impl,
-			prog.IntVal(uint64(prog.abi.Size(t.Key())), prog.Byte()).impl,
-			prog.IntVal(uint64(prog.abi.Size(t.Elem())), prog.Byte()).impl,
+			prog.IntVal(uint64(keySize), prog.Byte()).impl,
+			prog.IntVal(uint64(elemSize), prog.Byte()).impl,
 			prog.IntVal(uint64(prog.abi.Size(bucket)), prog.Uint16()).impl,
 			prog.IntVal(uint64(flags), prog.Uint32()).impl,
 		}
